@@ -141,14 +141,14 @@ package memory
 //
 // Clone forks the top activation into a memory of its own. Nothing is assumed about the recycled
 // memory's sp: a destroyed context is in whatever state it was left in.
-//@ func (*Type).Clone [C18,C03,C02,C19,C01,C04,C05,C10]
+//@ func (*Type).Clone [C18,C03,C02,C19,C01,C04,C05,C10,C09]
 //@   requires wf(m)
 //@   requires[reuse] reuse == nil || (wf(reuse) && reuse != m && arr(reuse.stack) != arr(m.stack) && arr(reuse.fp) != arr(m.fp))
 //@   modifies *reuse, elems(reuse.stack), elems(reuse.fp)
 //@   ensures[m_untouched] (forall i :: 0 <= i && i < len(m.stack) ==> m.stack[i] == old(m.stack[i])) && fpSame(m)
 //@   ensures[distinct]    result != nil && result != m && arr(result.stack) != arr(m.stack) && (len(m.fp) >= 2 ==> arr(result.fp) != arr(m.fp))
 //@   ensures[empty]       len(m.fp) < 2 ==> result.sp == 0 && len(result.fp) == 0
-//@   ensures[shape;C18,C03,C02,C19] len(m.fp) >= 2 ==> result.sp == m.sp - topFP(m) && len(result.fp) == 2 && result.fp[0] == 0 && result.fp[1] == topLE(m) - topFP(m)
+//@   ensures[shape;C18,C03,C02,C19,C09] len(m.fp) >= 2 ==> result.sp == m.sp - topFP(m) && len(result.fp) == 2 && result.fp[0] == 0 && result.fp[1] == topLE(m) - topFP(m)
 //@   ensures[room]        result.sp <= len(result.stack)
 //@   ensures[copy]        len(m.fp) >= 2 ==> (forall i :: 0 <= i && i < m.sp - topFP(m) ==> result.stack[i] == m.stack[topFP(m) + i])
 //@   ensures[globals]     ref(result.global) == ref(m.global)
